@@ -1,4 +1,10 @@
 mod client;
+// the C API, compiled into this process from the working tree's source (the crate only builds C libraries): the
+// `extern "C"` entry points then run over the SAME clock-bound-shm instance as the rest of the harness, i.e. under
+// the cfg-gated atomics shim, which a separately built libclockbound.so is not
+#[path = "/repo/clock-bound-ffi/src/lib.rs"]
+#[allow(dead_code, unused_imports, clippy::all)]
+mod ffi;
 mod session;
 mod daemon;
 mod shm;
@@ -43,6 +49,7 @@ fn exec_line_inner(line: &str) -> String {
         Some("crashpt") => crash::exec(&toks),
         Some("poll") | Some("pollr") => poller::exec(&toks, line).unwrap_or_else(|| "bad-op".into()),
         Some("slx") => ra::exec_slx(&toks),
+        Some("slxc") => ra::exec_slxc(&toks),
         Some("slaba") => ra::exec_slaba(),
         Some("skip") => ra::exec_skip(&toks),
         Some("upd") => daemon::exec_upd(line),
@@ -138,6 +145,29 @@ fn main() {
             let v = match k { "hdr-open" => header::gen_open(seed, count), "hdr-seg" => header::gen_seg(seed, count), "hdr-snap" => header::gen_snap(seed, count), _ => header::gen_sandwich(seed, count) };
             for g in v { emit(g); }
         }
+        // a stand-in for chronyd at process level: answers every request on a unix datagram socket with a Tracking
+        // reply (reference id, leap status and update interval given; reference time = now; small offsets)
+        //   cbharness fakechronyd <socket path> <refid u32> <leap> <seconds to live>
+        Some("fakechronyd") => {
+            drop(emit);
+            let sock = std::os::unix::net::UnixDatagram::bind(&args[2]).expect("bind");
+            let refid: u32 = args[3].parse().unwrap();
+            let leap: u16 = args[4].parse().unwrap();
+            let ttl: u64 = args[5].parse().unwrap();
+            sock.set_read_timeout(Some(std::time::Duration::from_millis(200))).unwrap();
+            let t0 = std::time::Instant::now();
+            let mut buf = [0u8; 2048];
+            while t0.elapsed().as_secs() < ttl {
+                if let Ok((n, addr)) = sock.recv_from(&mut buf) {
+                    if n < 12 { continue; }
+                    let now = std::time::SystemTime::now().duration_since(std::time::UNIX_EPOCH).unwrap().as_nanos() as i64;
+                    let t = wire::Trk { leap, ref_ns: now, off: 0x0200_0000 | 0x000a_0000, disp: 0x0400_0000 | 0x00b0_0000, delay: 0x0600_0000 | 0x00c0_0000, interval: (5u32 << 25) | (1 << 23), refid, ip4: None, stratum: None };
+                    let mut b = wire::reply_bytes(&t, 5);
+                    b[16..20].copy_from_slice(&buf[8..12]); // echo the sequence number
+                    if let Some(p) = addr.as_pathname() { let _ = sock.send_to(&b, p); }
+                }
+            }
+        }
         Some("hdr-abi") => { emit("cabi".to_string()); }
         Some("crashgrid") => { for g in crash::grid() { emit(g); } }
         Some("skipgen") => { for g in ra::skip_grid(args.get(2).map(|s| s.as_str()) == Some("all")) { emit(g); } }
@@ -146,7 +176,9 @@ fn main() {
             // one full exhaustion of the retry budget + short scripted runs (more with `all`)
             let mut v = vec!["slx 2 1000 3", "slx 2 1", "slx 3 5", "slx 0 7", "slx 65534 1", "slx 4 1", "slx 4 1 5", "slx 65534 3 5"];
             if args.get(2).map(|s| s.as_str()) == Some("all") { v.extend(["slx 2 1000", "slx 6 1 1", "slx 65534 3", "slx 4 2", "slx 65532 40000", "slx 65534 1 1", "slx 2 7 1"]); }
-            for l in v { emit(l.to_string()); }
+            for l in v.clone() { emit(l.to_string()); }
+            // the same scripts through the C API (clockbound_open / clockbound_now on one context)
+            for l in v { emit(l.replacen("slx ", "slxc ", 1)); }
         }
         Some("slgen") => {
             let seed: u64 = args[2].parse().unwrap();
